@@ -1406,8 +1406,38 @@ fn pretty_scalar(n: Number) -> Markup {
     m::value(n.pretty_print())
 }
 
+/// Calls of the temperature conversion functions are printed in their sugar form
+/// (`x -> °C`, `x °C`, see `Expression::pretty_print`), which is not an atomic expression.
+fn is_printed_in_sugar_form(expr: &Expression) -> bool {
+    fn is_sugar_name(name: &str) -> bool {
+        matches!(
+            name,
+            "from_celsius"
+                | "from_fahrenheit"
+                | "°C"
+                | "celsius"
+                | "degree_celsius"
+                | "°F"
+                | "fahrenheit"
+                | "degree_fahrenheit"
+        )
+    }
+
+    match expr {
+        Expression::FunctionCall { name, args, .. } => args.len() == 1 && is_sugar_name(name),
+        Expression::CallableCall { callable, args, .. } => {
+            args.len() == 1
+                && matches!(callable.as_ref(), Expression::Identifier { name, .. } if is_sugar_name(name))
+        }
+        _ => false,
+    }
+}
+
 fn with_parens(expr: &Expression) -> Markup {
     match expr {
+        _ if is_printed_in_sugar_form(expr) => {
+            m::operator("(") + expr.pretty_print() + m::operator(")")
+        }
         Expression::Scalar { .. }
         | Expression::Identifier { .. }
         | Expression::UnitIdentifier { .. }
